@@ -11,7 +11,7 @@
                                     objects read back after PushTo (must be the inputs) *)
 From Coq Require Import ZArith List Bool.
 From V Require Import C08Flv.
-From V Require Import Val StreamLts Cache C02Classify C02FlvProducer.
+From V Require Import Val StreamLts Cache C02Classify C02FlvProducer C02FlvViewers.
 Import ListNotations.
 Open Scope Z_scope.
 
@@ -100,3 +100,40 @@ Definition x_C02_flv_producer_ok (v : val) : val :=
                  (map as_int (as_list (nthv 0 obs)))
                  (map (fun p => (as_int (nthv 0 p), as_int (nthv 1 p))) (as_list (nthv 1 obs)))
                  (map as_int (as_list (nthv 2 obs)))).
+
+(* ---- FLV late join next to other viewers (real flv.Writer consumers sharing the tag objects) ----
+   case = (gopon tags events)   tags = ((tagtype timestamp data) ...) in publication order;
+                                events = (0) publish the next tag | (1) a viewer attaches |
+                                         (2 j m) viewer j writes up to m queued tags | (3) the joiner attaches
+   observation = (joins origs)  joins: per (3) event the pair (replay-at-join replay-at-end), a replay =
+                                ((index timestamp data) ...); origs = ((timestamp data) ...) of the published
+                                tag objects read at the end *)
+Definition dec_vev (v : val) : vev :=
+  match as_int (nthv 0 v) with
+  | 0 => VPub
+  | 1 => VAttach
+  | 2 => VView (as_nat (nthv 1 v)) (as_nat (nthv 2 v))
+  | _ => VJoin
+  end.
+Record vcase := { vc_gop : bool; vc_tags : list tagrec; vc_evs : list vev }.
+Definition dec_vcase (v : val) : vcase :=
+  {| vc_gop := as_bool (nthv 0 v);
+     vc_tags := map (fun t => (as_int (nthv 0 t), as_int (nthv 1 t), as_bytes (nthv 2 t))) (as_list (nthv 1 v));
+     vc_evs := map dec_vev (as_list (nthv 2 v)) |}.
+
+Definition enc_replay (r : list (Z * Z * list Z)) : val :=
+  vlist (fun x => VL [VI (fst (fst x)); VI (snd (fst x)); VB (snd x)]) r.
+Definition dec_replay (v : val) : list (Z * Z * list Z) :=
+  map (fun x => (as_int (nthv 0 x), as_int (nthv 1 x), as_bytes (nthv 2 x))) (as_list v).
+
+Definition x_C02_flv_viewers (v : val) : val :=
+  let c := dec_vcase v in
+  VL [ vlist (fun r => VL [enc_replay r; enc_replay r]) (viewers_joins (vc_gop c) (vc_tags c) O (vc_evs c));
+       vlist (fun t => VL [VI (snd (fst t)); VB (snd t)]) (vc_tags c) ].
+
+(* oracle on (case observed) = Model.viewers_ok, the function of [viewers_model_passes] *)
+Definition x_C02_flv_viewers_ok (v : val) : val :=
+  let c := dec_vcase (nthv 0 v) in let obs := nthv 1 v in
+  vbool (viewers_ok (vc_gop c) (vc_tags c) (vc_evs c)
+           (map (fun p => (dec_replay (nthv 0 p), dec_replay (nthv 1 p))) (as_list (nthv 0 obs)))
+           (map (fun p => (as_int (nthv 0 p), as_bytes (nthv 1 p))) (as_list (nthv 1 obs)))).
